@@ -395,7 +395,8 @@ pub fn run_case(ctx: &mut Ctx, target: Target, fmt: Fmt, comp: Comp, set: &Set) 
 							h.ttype, h.tcomp, h.bounds[0], h.bounds[1], h.bounds[2], h.bounds[3], h.center.0, h.center.1, h.center.2, hexs(&meta), set.levels_str(), set.tiles_str(), tab_str(&tab)
 						);
 						let ans = format!("ok {} {:016x} {}", bytes.len(), fnv64(&bytes), hexs(&bytes[..127]));
-						if req.len() <= c16::MAX_LINE {
+						// the root-boundary sets (≈ 7000 tiny tiles) are compared with the Lean writer model as well
+						if req.len() <= c16::MAX_LINE || (req.len() <= 600_000 && set.tiles.len() < 12_000) {
 							oc.lines.push((req, ans));
 						} else {
 							oc.counts.push("line_too_long_C01p".into());
@@ -852,7 +853,7 @@ pub fn run(args: &Args) {
 	self_test().expect("independent Hilbert implementation self test");
 	let mut ctx = c16::new_ctx(args, "c01-scratch");
 	let mut shrunk: BTreeMap<String, u32> = BTreeMap::new();
-	ctx.out.rule = "tile sets (single tile; sparse clusters; dense boxes; zoom gaps; both sides of the 256 grid at zoom 9–12 with x or y in {254,255,256,257,511,512}; duplicate payloads and sizes 999/1000/1001 around the de-duplication threshold; dense boxes of tiny tiles with additively related lengths (1..6, {10,20,30}, arithmetic progressions, Fibonacci-like) streamed row-major, i.e. not in tile-id order; a few hundred tiles; 130×130 = 16900 tiles at zoom 8 so that PMTiles needs leaf directories (one PMTiles case in the quick tier, five targets in the thorough tier); a third of the sets with a pyramid widened beyond the tiles) written with every real writer: the first set with ALL 30 (format, compression) pairs per target (incl. the pairs a target cannot express: Err is fine, a silent change is a failure), later sets with rotating pairs (versatiles 3, pmtiles 3, mbtiles 2, tar 2, directory 2 per set). Payloads are opaque bytes. A case is non-trivial when the set has ≥ 2 tiles and the writer succeeded; distinct by request text".into();
+	ctx.out.rule = "tile sets (single tile; sparse clusters; dense boxes; zoom gaps; both sides of the 256 grid at zoom 9–12 with x or y in {254,255,256,257,511,512}; duplicate payloads and sizes 999/1000/1001 around the de-duplication threshold; dense boxes of tiny tiles with additively related lengths (1..6, {10,20,30}, arithmetic progressions, Fibonacci-like) streamed row-major, i.e. not in tile-id order; a few hundred tiles; boundary-seeking sets (crate::boundary): PMTiles sets whose gzip-compressed root directory is exactly 16257, 16258, 16384, 16385 bytes long (budget 16384-127; more deltas in the thorough tier), PMTiles sets with exactly 16383 / 16384 entries, MBTiles sets of 2000 / 2001 tiles (insert batch size); 130×130 = 16900 tiles at zoom 8 so that PMTiles needs leaf directories (one PMTiles case in the quick tier, five targets in the thorough tier); a third of the sets with a pyramid widened beyond the tiles) written with every real writer: the first set with ALL 30 (format, compression) pairs per target (incl. the pairs a target cannot express: Err is fine, a silent change is a failure), later sets with rotating pairs (versatiles 3, pmtiles 3, mbtiles 2, tar 2, directory 2 per set). Payloads are opaque bytes. A case is non-trivial when the set has ≥ 2 tiles and the writer succeeded; distinct by request text".into();
 	if let Some(p) = &args.replay {
 		for line in std::fs::read_to_string(p).unwrap().lines() {
 			let line = line.trim_end();
@@ -922,6 +923,38 @@ pub fn run(args: &Args) {
 			emit_case(&mut ctx, &mut shrunk, Target::D, f, c, &set, kind);
 		}
 		rot += 1;
+	}
+	// boundary-seeking sets: the compressed PMTiles root directory is exactly at / just above the 16257-byte budget
+	// (16384 - 127) and at / just above 16384 - the writer must switch to leaf directories, never touch the metadata
+	if !search_run {
+		let t0 = std::time::Instant::now();
+		for (delta, tiles) in crate::boundary::pmtiles_root_boundary_sets(args.thorough()) {
+			ctx.out.count(&format!("pmtiles_root_boundary_delta_{delta}"));
+			let set = Set::exact(tiles);
+			emit_case(&mut ctx, &mut shrunk, Target::P, Fmt::Png, Comp::Gzip, &set, "root-boundary");
+		}
+		ctx.out.extra.insert("pmtiles_root_boundary_seconds".into(), json!(t0.elapsed().as_secs_f64()));
+	}
+	// other count thresholds of the writers: PMTiles tries a single-level directory only below 16384 entries (leaf chunks
+	// of 4096); MBTilesWriter inserts in batches of 2000 tiles (`for_each_buffered(2000, …)`)
+	if !search_run {
+		let grid = |n: usize, z: u8, w: u32| -> Set {
+			let mut t = TileMap::new();
+			for i in 0..n as u32 {
+				t.insert((z, i % w, i / w), vec![(i % 251) as u8, (i / 251) as u8]);
+			}
+			Set::exact(t)
+		};
+		let pm: &[usize] = if args.thorough() { &[16383, 16384, 16385] } else { &[16383, 16384] };
+		for n in pm {
+			ctx.out.count(&format!("pmtiles_entry_count_{n}"));
+			emit_case(&mut ctx, &mut shrunk, Target::P, Fmt::Webp, Comp::None, &grid(*n, 8, 128), "entry-count");
+		}
+		let mb: &[usize] = if args.thorough() { &[1999, 2000, 2001, 4000, 4001] } else { &[2000, 2001] };
+		for n in mb {
+			ctx.out.count(&format!("mbtiles_batch_{n}"));
+			emit_case(&mut ctx, &mut shrunk, Target::M, Fmt::Png, Comp::None, &grid(*n, 7, 64), "batch");
+		}
 	}
 	// getters.rs: dispatch of file names to readers / writers (streams GTR / GTW)
 	if !search_run {
